@@ -161,6 +161,12 @@ def _match(pattern: List[str], sig: List[str]) -> bool:
     for p, s in zip(pattern, sig):
         if p == "*":
             continue
+        if p.startswith("re:"):
+            import re
+
+            if not re.fullmatch(p[3:], s):
+                return False
+            continue
         if p.endswith("*"):
             if not s.startswith(p[:-1]):
                 return False
@@ -214,6 +220,13 @@ def run_check(prop: str, tier: str, seed: int, replay_path: Optional[str] = None
         print(f"replay: property {prop} held on the witness")
         return 0
 
+    # stale replay files of this property belong to earlier runs
+    for fn in os.listdir(REPLAY_DIR):
+        if fn.startswith(prop + "-") and fn.endswith(".json"):
+            try:
+                os.remove(os.path.join(REPLAY_DIR, fn))
+            except OSError:
+                pass
     shards = mod.plan(tier, seed)
     timeout = getattr(mod, "SHARD_TIMEOUT", {"quick": 600, "thorough": 3600})[tier]
     with ThreadPoolExecutor(max_workers=MAX_WORKERS) as ex:
